@@ -102,6 +102,14 @@ def make_strip_tuning(P):
     return strip_tuning
 
 
+def _bytes_test_expr(e, dparam) -> bool:
+    m_ = MM.match("isinstance(__d, __t)", e)
+    if m_ is None or norm(m_["__d"]) != dparam:
+        return False
+    ts = [norm(t_) for t_ in (m_["__t"].elts if isinstance(m_["__t"], ast.Tuple) else [m_["__t"]])]
+    return "bytes" in ts and set(ts) <= {"bytes", "bytearray", "memoryview"}
+
+
 def r1_chunk_loop(P, rep, ctx):
     fi = P.func(f"{H}.hashsum")
     g = ctx.cfg(fi)
@@ -163,6 +171,13 @@ def r1_chunk_loop(P, rep, ctx):
             loops_ = [n for n in g.nodes if n.kind == "loop"]
             const_loop = bool(loops_) and all(const_true(n.stmt.test) for n in loops_)
         # every path from the read to the function's continuation after the loop goes through the "empty read" edge
+        # (a bytes argument may be hashed in one go: `if isinstance(data, bytes): h.update(data); return h.hexdigest()`)
+        dparam = fi.params[0]
+        bt_edges = [(t.idx, "T") for t in g.nodes if t.kind == "test" and _bytes_test_expr(t.exprs[0], dparam)]
+        fast_upd = [u for u in upd if any(call_attr(c) == "update" and c.args and norm(c.args[0]) == dparam for c in g.calls(u)) and bt_edges and f.hit_before(u, edges=bt_edges)]
+        fast_ret = [r_ for r_ in ret if fast_upd and f.hit_before(r_, nodes=fast_upd)]
+        ret = [r_ for r_ in ret if r_ not in fast_ret]
+        upd = [u for u in upd if u not in fast_upd]
         ok = bool(empty) and bool(ret) and f.all_hit_before(ret, edges=empty) and const_loop
         rep.check(ok, "C19.R1", fi.qual, "the only exit of the read loop is the empty read", fi.loc(), construct="loop exit", message="hashsum can leave the read loop other than by an empty read (e.g. on a short chunk): trailing bytes are not hashed")
         # a non-empty chunk always reaches update before the next read
@@ -183,7 +198,8 @@ def r1_chunk_loop(P, rep, ctx):
         ts = [norm(t_) for t_ in (m_["__t"].elts if isinstance(m_["__t"], ast.Tuple) else [m_["__t"]])]
         return "bytes" in ts and set(ts) <= {"bytes", "bytearray", "memoryview"}
 
-    rep.check(any(_bytes_test(x) for x in ast.walk(fi.node) if isinstance(x, ast.Call)) and "BytesIO(data)" in norm(fi.node), "C19.R1", fi.qual, "bytes input is hashed through the same loop", fi.loc(), construct="bytes input", message="bytes input is not wrapped in BytesIO")
+    one_go = any(call_attr(c) == "update" and c.args and norm(c.args[0]) == fi.params[0] for c in local_calls(fi.node))
+    rep.check(any(_bytes_test(x) for x in ast.walk(fi.node) if isinstance(x, ast.Call)) and ("BytesIO(data)" in norm(fi.node) or one_go), "C19.R1", fi.qual, "bytes input is hashed through the same loop", fi.loc(), construct="bytes input", message="bytes input is not wrapped in BytesIO")
     q = P.func(f"{H}.qualified_hashsum")
     qf = F(ctx, q)
     rets = [qf.x(v) for _, v in qf.returns() if v is not None]
@@ -271,7 +287,7 @@ def r3_outside_links(P, rep, ctx):
     anyrs = [c for c in local_calls(fi.node) if norm(c.func) == "rel_symlink"]
     if len(anyrs) != 1:
         raise AnalysisError("C19.R3: rel_symlink call not found in dir_hashsums")
-    loopv = [norm(n.stmt.target) for n in g.nodes if n.kind == "for" and f.x(n.stmt.iter) == f"{dp}.rglob('*')"]
+    loopv = [norm(n.stmt.target) for n in g.nodes if n.kind == "for" and norm(MM.canon_collections(f.xe(n.stmt.iter))) == f"{dp}.rglob('*')"]
     rep.check(bool(rcs) and all(norm(b["__p"]) in loopv for i, c, b in rcs), "C19.R3", fi.qual, "link is normalised relative to the hashed directory", fi.loc(anyrs[0]), construct="rel_symlink arguments", message=f"rel_symlink is called with {[norm(a) for a in anyrs[0].args]}")
     CALL = f"rel_symlink({dp}, {loopv[0] if loopv else 'path'})"
     outside = f.tests(f"{CALL} is None")
@@ -300,7 +316,7 @@ def r4_structure(P, rep, ctx):
     f = F(ctx, fi)
     g = f.g
     dp, alg = fi.params[0], fi.params[1]
-    outer = [n for n in g.nodes if n.kind == "for" and f.x(n.stmt.iter) == f"{dp}.rglob('*')" and isinstance(n.stmt.target, ast.Name)]
+    outer = [n for n in g.nodes if n.kind == "for" and norm(MM.canon_collections(f.xe(n.stmt.iter))) == f"{dp}.rglob('*')" and isinstance(n.stmt.target, ast.Name)]
     rep.check(len(outer) == 1, "C19.R4", fi.qual, "every entry below the directory is visited", fi.loc(), construct="rglob", message="dir_hashsums does not iterate dir.rglob('*')")
     if len(outer) != 1:
         raise AnalysisError("C19.R4: entry loop of dir_hashsums not found")
@@ -399,6 +415,10 @@ def r4_structure(P, rep, ctx):
                 yes, no = (x.orelse, x.body) if neg else (x.body, x.orelse)
                 if norm(a_) == f"isinstance({hdp}, bytes)" and norm(yes) == f"BytesIO({hdp})" and norm(no) == hdp:
                     bt = True
+    if not bt and isb:
+        # or hashed in one go, only when it is bytes
+        one = [n_.idx for n_ in hsf.g.nodes if any(call_attr(c_) == "update" and c_.args and norm(c_.args[0]) == hdp for c_ in hsf.g.calls(n_.idx))]
+        bt = bool(one) and hsf.all_hit_before(one, edges=isb)
     rep.check(bool(bt), "C19.R4", f"{H}.hashsum", "bytes input is wrapped exactly when it is bytes", fi.loc(), construct="bytes test", message="hashsum wraps non-bytes input / does not wrap bytes")
     from .common import require_total
 
